@@ -1,5 +1,5 @@
 """property id -> suites, evidence rule, trusted base additions"""
-from suites import props_tree, prims, monitor, legacy, c04, sk, multiround, cxx, cli, files, metrics
+from suites import props_tree, prims, monitor, legacy, c04, sk, multiround, cxx, cli, files, metrics, gen
 
 RULE_TREE = ("random operation histories (weighted words over fit / refine / recluster / set_merge / setters / "
              "delete_internal_nodes / reset / malformed fit; feature counts 1..24, 63, 64, 65, 100, 256; prototype+noise, "
@@ -30,15 +30,20 @@ RULE_MR = ("generated multi-round workflows (1-5 input files of unequal sizes in
            "with the model's directory; re-run under other orders / real pools / shuffled listings; non-trivial = distinct successful "
            "workflow with more than one input file")
 
+RULE_GEN = ("; S-GEN: every function of the generated model lean/BBGen/Gen.lean (tools/py2lean.py's translation of the Python "
+            "sources) executed through the driver and the real Python function on the same arguments (arrays in all four unsigned "
+            "dtypes, consistent and inconsistent sums, counts straddling 1/2, 127/128, 255/256, 65535/65536, 2^32; np.exp recorded from "
+            "the real call), results compared as typed literals (type AND exact value)")
+
 PROPS: dict = {
     "C01": {"suites": [props_tree.c01], "rule": RULE_TREE},
-    "C02": {"suites": [props_tree.c02], "rule": RULE_TREE},
-    "C03": {"suites": [props_tree.c03], "rule": RULE_TREE},
-    "C04": {"suites": [c04.suite_repr, c04.suite_pages],
+    "C02": {"suites": [props_tree.c02, gen.suite_gen({"min_safe_uint", "centroid"})], "rule": RULE_TREE + RULE_GEN},
+    "C03": {"suites": [props_tree.c03, gen.suite_gen({"merges"})], "rule": RULE_TREE + RULE_GEN},
+    "C04": {"suites": [c04.suite_repr, c04.suite_pages, gen.suite_gen({"pages"})],
             "rule": "data sets x 5-10 random (representation, dtype, chunking) variants {packed,unpacked} x {ndarray,list,Path,str path} x 8 "
                     "integer dtypes x 0-3 cuts, every variant compared with ONE model run and with each other; every 10th (5th) data set "
                     "also in a fresh subprocess; S-PAGES: .npy files on both sides of 2 MiB of rows fitted by path with "
-                    "_madvise_dontneed wrapped; non-trivial = data set with a multi-member cluster / file with at least one release",
+                    "_madvise_dontneed wrapped; non-trivial = data set with a multi-member cluster / file with at least one release" + RULE_GEN,
             "proof_modules": ["BBProps.C04", "BBProofs.Chunking", "BBProofs.MemPages"]},
     "C05": {"suites": [multiround.suite_c05], "rule": RULE_MR, "proof_modules": ["BBProps.C05", "BBProofs.Multiround", "BBProofs.Names"]},
     "C06": {"suites": [multiround.suite_c06], "rule": RULE_MR, "proof_modules": ["BBProps.C06", "BBProofs.Multiround", "BBProofs.Names"]},
@@ -46,9 +51,10 @@ PROPS: dict = {
             "_legacy.bb_int64 on 2048-bit inputs (radius, diameter, tolerance-legacy), non-trivial = case with a multi-member cluster"},
     "C08": {"suites": [props_tree.c08], "rule": RULE_TREE},
     "C09": {"suites": [props_tree.c09], "rule": RULE_TREE},
-    "C10": {"suites": [prims.suite_merge], "rule": RULE_MERGE},
-    "C11": {"suites": [prims.suite_isim], "rule": RULE_PRIM},
-    "C12": {"suites": [prims.suite_bits], "rule": RULE_PRIM},
+    "C10": {"suites": [prims.suite_merge, gen.suite_gen({"merges", "dispatch"})], "rule": RULE_MERGE + RULE_GEN,
+            "proof_modules": ["BBProps.C10", "BBProofs.GenEq", "BBProofs.PyNum", "BBGen.Gen", "BBModel.PyNum"]},
+    "C11": {"suites": [prims.suite_isim, gen.suite_gen({"isim"})], "rule": RULE_PRIM + RULE_GEN},
+    "C12": {"suites": [prims.suite_bits, gen.suite_gen({"centroid"})], "rule": RULE_PRIM + RULE_GEN},
     "C13": {"suites": [cxx.suite_kernels, cxx.suite_transcription, cxx.suite_end_to_end],
             "rule": "csrc/similarity.cpp compiled out of tree on every run (g++ -O2 -std=c++17 against the pybind11 stand-in of harness/cxx) "
                     "and called through ctypes: every kernel on 8-byte-aligned and misaligned buffers, row widths 1..256 bytes on both sides "
